@@ -361,6 +361,30 @@ func (s *windowStep) On(i int, n src.Notif) ([]string, *Term) {
 	return nil, nil
 }
 
+// windowWhen with the windows marked (0 = source, 1 = boundary): a boundary value completes window k and
+// opens window k+1; a terminal of either input completes the current window and opens none.
+type windowMarkedStep struct {
+	base
+	k int
+}
+
+func NewWindowMarked(n int) Step        { return &windowMarkedStep{base: newBase(2)} }
+func (s *windowMarkedStep) Clone() Step { c := *s; c.base = s.cloneBase(); return &c }
+func (s *windowMarkedStep) On(i int, n src.Notif) ([]string, *Term) {
+	switch {
+	case n.K == rec.Error:
+		s.ended[i] = true
+		return ri([]int{-200 - s.k}), s.fail()
+	case n.K == rec.Complete:
+		s.ended[i] = true
+		return ri([]int{-200 - s.k}), s.complete()
+	case i == 0:
+		return ri([]int{n.V}), nil
+	}
+	s.k++
+	return ri([]int{-200 - (s.k - 1), -100 - s.k}), nil
+}
+
 // ---------------------------------------------------------------- sampleWhen (0 = source, 1 = tick)
 
 type sampleStep struct {
